@@ -30,7 +30,7 @@ func hsUnpackOut(data []byte) (string, *protocol.Handshake) {
 }
 
 func runC18(r *Run) {
-	r.st.Rule = "exhaustive: all 2^16 field tuples through Handshake.Pack, all 2^16 byte pairs and lengths 0..6 through Handshake.Unpack, all 256 versions through GetProtocol and Context.Handshake (v1 and v2 imported as the client does); every case is distinct; non-trivial = every case (the domain is enumerated, not sampled)"
+	r.st.Rule = "exhaustive: all 2^16 field tuples through Handshake.Pack, all 2^16 byte pairs and lengths 0..6 through Handshake.Unpack, all 256 versions through GetProtocol and Context.Handshake (v1 and v2 imported as the client does); every case is distinct; non-trivial = every case (the domain is enumerated, not sampled) Last: one implementation registered under further numbers through Register - the context adopts the handshake's number."
 	r.st.Exhaustive = true
 	// direction 1: every 4-bit tuple
 	for v := 0; v < 16; v++ {
